@@ -9,6 +9,7 @@ import (
 	"path/filepath"
 	"strings"
 	"sync"
+	"syscall"
 	"time"
 )
 
@@ -18,11 +19,15 @@ type solverSpec struct {
 }
 
 var solvers = []solverSpec{
-	{"z3-5.1.0", func(f string, sec int) []string { return []string{"z3-new", fmt.Sprintf("-T:%d", sec), f} }},
-	{"z3-4.8.12", func(f string, sec int) []string { return []string{"/usr/bin/z3", fmt.Sprintf("-T:%d", sec), f} }},
-	{"cvc5-1.0", func(f string, sec int) []string {
-		return []string{"cvc5", fmt.Sprintf("--tlimit=%d", sec*1000), f}
-	}},
+	{"z3-5.1.0", func(f string, sec int) []string { return cpuLimited(sec, "z3-new", f) }},
+	{"z3-4.8.12", func(f string, sec int) []string { return cpuLimited(sec, "/usr/bin/z3", f) }},
+	{"cvc5-1.0", func(f string, sec int) []string { return cpuLimited(sec, "cvc5", f) }},
+}
+
+// cpuLimited runs a solver under a CPU-time limit (ulimit -t), so that the verdict does not depend on how
+// many other solver processes share the machine; the wall-clock limit (see runSolverCtx) is only a backstop.
+func cpuLimited(sec int, argv ...string) []string {
+	return append([]string{"/bin/sh", "-c", fmt.Sprintf("ulimit -t %d; exec \"$@\"", sec), "sh"}, argv...)
 }
 
 type solveOut struct {
@@ -38,15 +43,21 @@ func runSolver(s solverSpec, file string, sec int) solveOut {
 
 func runSolverCtx(parent context.Context, s solverSpec, file string, sec int) solveOut {
 	args := s.Cmd(file, sec)
-	ctx, cancel := context.WithTimeout(parent, time.Duration(sec+3)*time.Second)
+	ctx, cancel := context.WithTimeout(parent, time.Duration(4*sec+10)*time.Second)
 	defer cancel()
 	cmd := exec.CommandContext(ctx, args[0], args[1:]...)
 	var out bytes.Buffer
 	cmd.Stdout = &out
 	cmd.Stderr = &out
 	t0 := time.Now()
-	_ = cmd.Run()
+	runErr := cmd.Run()
 	el := time.Since(t0).Seconds()
+	killed := false
+	if ee, ok := runErr.(*exec.ExitError); ok && ee.ProcessState != nil {
+		if ws, ok := ee.ProcessState.Sys().(syscall.WaitStatus); ok && ws.Signaled() {
+			killed = true // SIGXCPU / SIGKILL: the CPU-time limit (or the backstop) was reached
+		}
+	}
 	text := out.String()
 	first := strings.TrimSpace(strings.SplitN(text, "\n", 2)[0])
 	st := "unknown"
@@ -57,7 +68,7 @@ func runSolverCtx(parent context.Context, s solverSpec, file string, sec int) so
 		st = "sat"
 	case parent.Err() != nil:
 		st = "cancelled"
-	case first == "timeout" || ctx.Err() != nil || strings.Contains(first, "interrupted") || strings.Contains(first, "time limit"):
+	case killed || first == "timeout" || ctx.Err() != nil || strings.Contains(first, "interrupted") || strings.Contains(first, "time limit"):
 		st = "timeout"
 	case strings.HasPrefix(first, "(error") || strings.Contains(first, "rror"):
 		st = "error"
@@ -79,6 +90,18 @@ func (vc *VC) Solve(o *Obl, dir string, quickSec, slowSec int, cross bool) {
 		return
 	}
 	o.File = file
+	// stage 0: the same obligation with the quantified assumptions about unrelated parts of the heap removed
+	if strings.Count(strings.Join(vc.cmds[:o.CtxLen], "\n"), "(forall ") > 40 {
+		sfile := filepath.Join(dir, smtName(o.Name)+".sliced.smt2")
+		if err := os.WriteFile(sfile, []byte(vc.slicedScript(o)), 0o644); err == nil {
+			r0 := runSolver(solvers[0], sfile, quickSec)
+			o.TimeS += r0.secs
+			if r0.status == "unsat" {
+				o.Status, o.Solver, o.File = "unsat", r0.solver+" (sliced context)", sfile
+				return
+			}
+		}
+	}
 	firstIdx := 0
 	if vc.fc != nil && vc.fc.Mode == "fp" {
 		firstIdx = 2
@@ -90,6 +113,10 @@ func (vc *VC) Solve(o *Obl, dir string, quickSec, slowSec int, cross bool) {
 	r := runSolver(solvers[firstIdx], file, stage1)
 	o.TimeS += r.secs
 	if r.status != "unsat" && r.status != "sat" {
+		// stage 2: conjuncts of the goal one by one (a quantified conjunction is much harder than its parts)
+		if vc.solveSplit(o, dir, quickSec, slowSec) {
+			return
+		}
 		ctx, cancel := context.WithCancel(context.Background())
 		ch := make(chan solveOut, len(solvers))
 		for _, s := range solvers {
@@ -143,6 +170,35 @@ func (vc *VC) Solve(o *Obl, dir string, quickSec, slowSec int, cross bool) {
 			}
 		}
 	}
+}
+
+// solveSplit: the goal split into its conjuncts (under the quantifiers and guards), each discharged on its own.
+func (vc *VC) solveSplit(o *Obl, dir string, quickSec, slowSec int) bool {
+	parts := splitGoal(o.Goal)
+	if len(parts) <= 1 || len(parts) > 24 || o.part {
+		return false
+	}
+	all := true
+	subs := make([]*Obl, len(parts))
+	var wg sync.WaitGroup
+	for i, p := range parts {
+		sub := *o
+		sub.Goal, sub.Status, sub.Name, sub.part, sub.TimeS = p, "", fmt.Sprintf("%s.c%d", o.Name, i+1), true, 0
+		subs[i] = &sub
+		wg.Add(1)
+		go func(sub *Obl) { defer wg.Done(); vc.Solve(sub, dir, quickSec, slowSec, false) }(&sub)
+	}
+	wg.Wait()
+	for _, sub := range subs {
+		o.TimeS += sub.TimeS
+		if sub.Status != "unsat" {
+			all = false
+		}
+	}
+	if all {
+		o.Status, o.Solver, o.Model = "unsat", fmt.Sprintf("%s (goal split into %d conjuncts)", subs[0].Solver, len(parts)), ""
+	}
+	return all
 }
 
 // SolveAll runs the obligations of several functions on a worker pool.
